@@ -28,4 +28,5 @@ func init() {
 	twin("C03", "write-error-switch-form", "proxy.go",
 		"\terr = res.Write(brw)\n\tif err != nil {\n\t\tlog.Errorf(\"martian: got error while writing response back to client: %v\", err)",
 		"\terr = res.Write(brw)\n\tswitch {\n\tcase err != nil:\n\t\tlog.Errorf(\"martian: got error while writing response back to client: %v\", err)")
+	mut("C03", "half-close-skipped-on-error", "proxy.go", "\t\t\tlog.Errorf(\"martian: failed to copy CONNECT tunnel: %v\", err)\n\t\t}\n", "\t\t\tlog.Errorf(\"martian: failed to copy CONNECT tunnel: %v\", err)\n\t\t\tdonec <- true\n\t\t\treturn\n\t\t}\n", "C03.R5", "")
 }
